@@ -54,6 +54,9 @@ class RatFuncSegment:
         for denominator_coeff in reversed(self.denominator_coeffs):
             denominator *= x
             denominator += float(denominator_coeff)
+        if len(self.denominator_coeffs) == 0:
+            # COMPU-DENOMINATOR is optional
+            denominator = 1.0
 
         result = numerator / denominator
 
